@@ -138,10 +138,13 @@ class RouterInfoCache:
             if not router_info:
                 if _debug: RouterInfoCache._debug("    - no route info")
             else:
-                for dnet in (dnets or router_info.dnets):
-                    del self.path_info[(snet, dnet)]
-                    if _debug: RouterInfoCache._debug("    - del path: %r -> %r via %r", snet, dnet, router_info.address)
-                del self.routers[snet][address]
+                for dnet in (dnets or list(router_info.dnets)):
+                    if dnet in router_info.dnets:
+                        del router_info.dnets[dnet]
+                        del self.path_info[(snet, dnet)]
+                        if _debug: RouterInfoCache._debug("    - del path: %r -> %r via %r", snet, dnet, router_info.address)
+                if not router_info.dnets:
+                    del self.routers[snet][address]
             return
 
         # look for routers to the dnets
